@@ -39,7 +39,7 @@ type tcase struct {
 	render func(f *coqgen.File) string // the `tinput` term
 	obs    int
 	input  any
-	needB  []string             // primitive hash calls recorded for this case
+	needB  []string // primitive hash calls recorded for this case
 	needH  []string
 	fl     []func(*floats.Rec) // float primitives recorded for this case
 }
@@ -67,7 +67,7 @@ func (d *drv) addCase(term func(f *coqgen.File) string, class string, input any)
 }
 
 // float primitives are journalled per case (sequential streams only)
-func (d *drv) flStr(s string) { d.flJ = append(d.flJ, func(fr *floats.Rec) { fr.AddStr(s) }) }
+func (d *drv) flStr(s string)  { d.flJ = append(d.flJ, func(fr *floats.Rec) { fr.AddStr(s) }) }
 func (d *drv) flBits(b uint64) { d.flJ = append(d.flJ, func(fr *floats.Rec) { fr.AddBits(b) }) }
 func (d *drv) flInt(z *big.Int, unsigned bool) {
 	d.flJ = append(d.flJ, func(fr *floats.Rec) { fr.AddInt(z, unsigned) })
@@ -243,6 +243,9 @@ func (d *drv) verifyCase(a *Arte, in verifyInput, compare bool) Verdict {
 	d.mu.Lock()
 	d.rep.Evaluations++
 	d.rep.Count("verify:" + a.Kind + ":" + v.Class())
+	if len(in.Removed) > 0 {
+		d.rep.Distinct("verify:" + in.Bundle + ":" + strings.Join(in.Removed, ","))
+	}
 	d.mu.Unlock()
 	full := verifyInput{Stream: "verify", Arte: pristine}
 	if c := v.Decode.Class; c == "panic" || c == "hang" {
